@@ -254,13 +254,15 @@ fn e2e(scn: &Value) -> Value {
                         // "stops accepting connections": with sessions still in flight (howl cannot have returned) the port must refuse a new
                         // client -- probed until it does, for at most 4 s (the sessions stay in flight meanwhile: only the script releases them)
                         if !inflight.is_empty() {
-                            let t0 = std::time::Instant::now(); let mut closed = false;
+                            let t0 = std::time::Instant::now(); let mut closed = false; let mut oks = 0i64;
                             while t0.elapsed() < Duration::from_millis(4000) {
-                                match tokio::time::timeout(Duration::from_millis(500), tokio::net::TcpStream::connect(("127.0.0.1", port))).await {
-                                    Ok(Ok(c)) => { drop(c); tokio::time::sleep(Duration::from_millis(20)).await }
-                                    _ => { closed = true; break }
+                                match tokio::time::timeout(Duration::from_millis(1500), tokio::net::TcpStream::connect(("127.0.0.1", port))).await {
+                                    Ok(Ok(c)) => { oks += 1; drop(c); tokio::time::sleep(Duration::from_millis(20)).await }
+                                    Ok(Err(e)) if e.kind() == std::io::ErrorKind::ConnectionRefused => { closed = true; break }
+                                    Ok(Err(_)) | Err(_) => { tokio::time::sleep(Duration::from_millis(20)).await }      // neither accepted nor refused: try again
                                 }
                             }
+                            ev("port-probes-accepted", oks);
                             ev("port", closed as i64);
                         }
                     }
